@@ -78,6 +78,8 @@ pub fn judge(ctx: &Ctx, l: &mut Local, p: &Params, site: Site, date: NaiveDate, 
 }
 
 pub fn explore(ctx: &Ctx) {
+    // call sequences from non-initial states (see history.rs)
+    crate::history::explore(ctx, "place_time", &crate::history::alphabet_place_time(), 3);
     let quick = ctx.tier == Tier::Quick;
     ctx.rule("every (site, date, method, shift) is one pair of calls; all pairs are distinct; non-trivial = the shifted site is in range, so the pair was run and its entries compared (per-prayer exemptions counted in counters)");
     ctx.assume("|d| <= 1 h: the tolerance is the Sun's own motion during the shifted interval and scales with d");
